@@ -91,15 +91,18 @@ theorem forged_rejected_original_false :
     object with an id was either (a) re-fetched from the URL in the id `id0` of the first object
     `o0` — the embedded input, or the document the reference led to — and came from the host its
     own id names; or (b) kept embedded, the source's host being the id's; or (c) fetched by
-    reference from the id's host and kept. -/
+    reference from the id's host and kept.  "The URL a reference leads to" is the reference
+    resolved against the source (`World.resolve` = `source.ResolveReference`, the identity for the
+    absolute references the statement was first written for and whenever there is no source). -/
 theorem forged_rejected (w : World) (input : JVal) (source : Option U) (o : O) (id : U)
     (h : fetchUnknown w input source = .ok (o, some id)) :
     (∃ o0 id0 src, (input = .obj o0 ∨ ∃ ref u src0, input = .str ref ∧ w.parse ref = some u ∧
-          w.fetch u.str = some (o0, src0)) ∧
+          w.fetch (w.resolve source u).str = some (o0, src0)) ∧
         getId w o0 = .ok (some id0) ∧ w.fetch id0.str = some (o, src) ∧
         src.host = id.host ∧ getId w o = .ok (some id)) ∨
     (∃ s, source = some s ∧ s.host = id.host ∧ input = .obj o) ∨
-    (∃ ref src, input = .str ref ∧ src.host = id.host ∧ ∃ u, w.parse ref = some u ∧ w.fetch u.str = some (o, src)) :=
+    (∃ ref src, input = .str ref ∧ src.host = id.host ∧ ∃ u, w.parse ref = some u ∧
+        w.fetch (w.resolve source u).str = some (o, src)) :=
   C02aux.fetchUnknown_inv h
 
 /-- Sub-values of a served object are served by the same host (what the constructors rely on when
